@@ -25,6 +25,7 @@ TRUSTED = [
     'lib/sqwcorr.py:unit_facts (ast extraction of the unit string literals of _models.py / _sqw.py, fail-closed)',
 ]
 ASSUMPTIONS = [
+    'KNOWN FINDINGS excluded from the reader-unit theorem: the two alatt fields (sample, projection) are labelled 1/angstrom by the reader (C13_reader_unit_dimension_except_known_alatt is the full statement minus exactly these; C13_alatt_unit_refuted proves the defect from the regenerated tables); the reader raises on a 2-D en (no theorem depends on it)',
     'strings are ASCII; values are finite and stay finite in binary32 after conversion; integer rows are below 2^53',
     'pixel rows are float64, int64, or float32 already in the documented unit (float32 rows needing conversion are converted by scipp in single precision: outside "rounded once")',
     'integers stored as binary64 (nfiles, npix, run ids) are below 2^53; at least one run',
@@ -134,7 +135,7 @@ def correspondence(ctx):
     by_key = {}
     for cid, why in fails.items():
         for part in why.split('+'):
-            key = S.norm_reason(part)
+            key = refine_key(S.norm_reason(part), part, results[cid])
             if key not in by_key or S.case_size(cases[cid]) < S.case_size(cases[by_key[key][0]]):
                 by_key[key] = (cid, why)
     for key, (cid, why) in sorted(by_key.items()):
@@ -164,9 +165,23 @@ def correspondence(ctx):
     })
 
 
+KNOWN_ALATT_LABEL = '1/angstrom'
+
+
+def refine_key(key, part, r):
+    """the recorded known findings are: lattice parameters (written in angstrom) come back labelled exactly 1/angstrom.
+    Any OTHER wrong label on those fields is a different violation and gets its own key."""
+    if key.startswith('reader-unit-dimension:') and key.endswith('alatt'):
+        path = part.split(':', 1)[1]
+        o = r.get('reader', {}).get('view', {}).get(path)
+        if o is not None and o.get('unit') != KNOWN_ALATT_LABEL:
+            return key + ':labelled-' + str(o.get('unit'))
+    return key
+
+
 def observed_detail(key, c, r):
     view = r.get('reader', {}).get('view', {})
-    m = key.split(':')[-1]
+    m = key.split(':')[1] if key.count(':') >= 1 else key
     out = {}
     for path, o in view.items():
         if S.norm_reason(path) == m or path == m:
@@ -202,8 +217,10 @@ def search(ctx, broken):
                                     ('dnd.pr.alatt', next((cl['proj']['alatt']['unit'] for cl in c['calls'] if cl['kind'] == 'dnd'), None))):
             if supplied_unit is None or path not in view:
                 continue
-            if (view[path]['unit'] in inverse) != (supplied_unit in inverse):
+            if (view[path]['unit'] in inverse) != (supplied_unit in inverse) or view[path]['unit'] not in inverse | {'angstrom', 'nm', 'pm', 'um', 'm'}:
                 key = 'reader-unit-dimension:' + S.norm_reason(path)
+                if view[path]['unit'] != KNOWN_ALATT_LABEL:
+                    key += ':labelled-' + str(view[path]['unit'])
                 ctx.violation(key, f'lattice parameters supplied in {supplied_unit} are returned by the reader labelled '
                                    f'{view[path]["unit"]} ({path}) for {S.describe(c)}', {'case': c, 'path': path, 'reader_unit': view[path]['unit']})
                 found.append(c)
